@@ -408,8 +408,60 @@ def r04g(ck, prog):
     ck.floor("R04g", n, 5, "loops over input lines")
 
 
+def r04h(ck, prog):
+    """any line width: read_file_stdin obtains whole physical lines (getline) and keeps every byte getline returned up
+    to the first control character; a fixed-size fgets/fread buffer or a copy loop that stops short drops data"""
+    from ..affine import loop_range, single_defs, lin
+    F = prog.fn("read_file_stdin")
+    gl = list(F.body.calls("getline", "getdelim"))
+    fixed = list(F.body.calls("fgets", "fread", "fscanf"))
+    where = site(prog, gl[0] if gl else F, "line acquisition")
+    ck.inst("R04h", where, "read_file_stdin reads lines with %s" % ([c.callee for c in gl + fixed]), prog.config)
+    for c in fixed:
+        ck.violation("R04h", "R04h/read_file_stdin/%s" % c.callee, site(prog, c),
+                     "read_file_stdin reads input with %s into a buffer of fixed size (%s): a longer line is split into several "
+                     "buffer lines, and block rows wider than the buffer are mis-parsed" % (c.callee, c.args[1].text() if len(c.args) > 1 else "?"),
+                     prog.config)
+    if not gl:
+        if not fixed:
+            raise AnalysisBroken("R04h slot: read_file_stdin uses neither getline nor fgets")
+        return
+    g = gl[0]
+    # the variable that receives getline's result
+    p, c = g.up(casts=True)
+    res = p.kids[0].strip() if p is not None and p.k == "BinaryOperator" and p.d["op"] == "=" else None
+    if res is None:
+        raise AnalysisBroken("R04h slot: result of getline is not stored")
+    subst = single_defs(F)
+    found = False
+    for lp in F.body.find("ForStmt"):
+        rng = loop_range(lp, subst)
+        if rng is None:
+            continue
+        # the copy loop: stores into a freshly allocated buffer from the getline buffer
+        stores = [a for a in lp.find("BinaryOperator") if a.d["op"] == "=" and a.kids[0].strip().k == "ArraySubscriptExpr" and
+                  a.kids[1].strip(casts=True).k == "ArraySubscriptExpr"]
+        if not stores:
+            continue
+        found = True
+        lo, hi = rng[1], rng[2]
+        diff = hi.add(lin(res), -1) if lin(res) is not None else None
+        ck.inst("R04h", site(prog, lp, "copy loop"), "copies bytes [%s, %s) of the %s bytes getline returned" % (lo, hi, res.text()), prog.config)
+        if not (lo.is_const() and lo.c == 0):
+            ck.violation("R04h", "R04h/read_file_stdin/copy-start", site(prog, lp), "the line copy starts at %s" % lo, prog.config)
+        if diff is None or not diff.is_const():
+            raise AnalysisBroken("R04h: the bound of the line copy loop (%s) is not comparable with getline's result" % hi)
+        if diff.c < 0:
+            ck.violation("R04h", "R04h/read_file_stdin/copy-short", site(prog, lp),
+                         "the line copy stops %d byte(s) before the end of what getline returned: a last line without a newline loses "
+                         "its final character(s) (the newline itself is already excluded by the control-character test)" % -diff.c, prog.config)
+    if not found:
+        raise AnalysisBroken("R04h slot: line copy loop not found in read_file_stdin")
+
+
 def run(ck, progs):
     describe(ck)
+    ck.rule("R04h", "read_file_stdin reads whole physical lines (no fixed-size line buffer) and keeps all bytes up to the first control character")
     ck.rule("R04g", "no reader treats an absolute line number as special: loops over the input lines never break unconditionally")
     for cfg, prog in progs.items():
         ck.attempt(r04a, ck, prog)
@@ -418,6 +470,7 @@ def run(ck, progs):
         ck.attempt(c01.dealign_rule, ck, prog, "R04b")
         ck.attempt(r04c, ck, prog)
         ck.attempt(r04g, ck, prog)
+        ck.attempt(r04h, ck, prog)
     return ("Sibling cross-check of the three readers' classification chains (predicate, actions, histogram, same "
             "character); span of every loop over msa_seq.gaps and coverage of the totals deciding the alignment status; "
             "who assigns ALN_STATUS_UNALIGNED; who touches gaps before the merge phase; stores into kalign_read_input's "
